@@ -17,6 +17,7 @@ import (
 
 	"verifharness/gen"
 	"verifharness/ref"
+	"verifharness/splitk"
 	"verifharness/vk"
 )
 
@@ -396,6 +397,13 @@ var pools = func() [nCodecs][]rune {
 }()
 
 func drawText(t *rapid.T, k int) string {
+	if rapid.IntRange(0, 9).Draw(t, "corpus") == 0 {
+		// messages as applications send them (signatures, codes, links, JSON, bracket runs, emoji sequences)
+		if rapid.Bool().Draw(t, "corpusshort") {
+			return rapid.SampledFrom(splitk.Corpus).Draw(t, "corpusmsg")
+		}
+		return splitk.CorpusText(t)
+	}
 	n := rapid.OneOf(rapid.IntRange(0, 24), rapid.IntRange(0, 400), rapid.SampledFrom([]int{7, 8, 9, 15, 16, 17, 159, 160, 161})).Draw(t, "n")
 	rs := rapid.SliceOfN(rapid.OneOf(rapid.SampledFrom(pools[k]), rapid.SampledFrom(pools[k]), rapid.SampledFrom(pools[k]), rapid.Rune()), n, n).Draw(t, "runes")
 	if rapid.IntRange(0, 7).Draw(t, "decomposed") == 0 {
